@@ -159,7 +159,24 @@ def run(ck, P):
           "m_ctx_fd duplicates the poll handle %d time(s) and returns %s" % (len(dfd), rets))
     cp = P.fn("create_priv_fd")
     helpers = {"create_timerfd", "create_signalfd", "create_inotifyfd", "create_pidfd", "create_eventfd"}
-    okc = all({e.fn.name for e in P.calls_to(h)} == {"create_priv_fd"} for h in helpers if P.by_name.get(h))   # (a helper folded into create_priv_fd is covered by the table above)
+    # each creating helper is reached through create_priv_fd only — called there directly, or listed in a table of function pointers that
+    # only create_priv_fd reads (a switch and a lookup table are the same dispatch)
+    def _users(h):
+        out = set()
+        for f_ in P.funcs:
+            for ev_ in f_.events():
+                for x_ in lm.walk(ev_.e):
+                    if isinstance(x_, dict) and ((x_.get("k") == "call" and x_.get("callee") == h) or
+                                                 (x_.get("k") == "var" and x_.get("vk") == "func" and x_.get("name") == h)):
+                        out.add(f_.name)
+        for g_ in P.globals:
+            if g_.get("init") is not None and any(isinstance(x_, dict) and x_.get("k") == "var" and x_.get("vk") == "func" and x_.get("name") == h
+                                                    for x_ in lm.walk(g_["init"])):
+                readers = {f_.name for f_ in P.funcs for ev_ in f_.events() for x_ in lm.walk(ev_.e)
+                           if isinstance(x_, dict) and x_.get("k") == "var" and x_.get("vk") in ("global", "slocal") and x_.get("name") == g_["name"]}
+                out |= readers or {"<table %s>" % g_["name"]}
+        return out
+    okc = all(_users(h) == {"create_priv_fd"} for h in helpers if P.by_name.get(h))   # (a helper folded into create_priv_fd is covered by the table above)
     cps = list(P.calls_to("create_priv_fd"))
     okc = okc and {e.fn.name for e in cps} == {"poll_set_new_evt"} and all(has(X.facts(e.fn, e), "(flag == %d)" % E["ADD"], True) or has(X.facts(e.fn, e), "flag", False) for e in cps)
     ck.ob("C20.2-WHO-OPENS", cp.site("only on ADD"), okc, "internal descriptors are created only by poll_set_new_evt(ADD): %s" % okc)
